@@ -44,6 +44,10 @@ def make_scenarios(ctx, count):
                 feed(1, G.f_probe(rng, netb, to_me=rng.random() < 0.7), "F")
             for _ in range(rng.randint(0, 2)):
                 feed(0, G.f_hello(rng, neta), "F")
+            if rng.random() < 0.5:
+                third = rng.choice(netb.strangers)
+                for (_k, _p, s_i, d_i) in rng.sample(descs, min(len(descs), rng.randint(1, 3))):
+                    feed(1, W.probe(b, s_i, b, third, train=rng.random() < 0.5), "F")
             seq += 1
             feed(0, W.emit(a, neta.mappers[m], seq, descs, eth_src=neta.bridges[m] if bridged else None), "EMIT")
             s.add("DELIVER 0 1")
